@@ -62,15 +62,19 @@ class World:
         out = os.path.join(self.jobs, "out%d.jsonl" % n)
         with open(job, "w") as fh:
             json.dump({"world": self.world, "ops": list(ops), "out": out, "probe_keys": [list(k) for k in probe_keys]}, fh)
-        p = subprocess.run([sys.executable, "-P", DRIVER, job], cwd=self.cwd, env=self.env(), stdin=subprocess.DEVNULL,
-                           stdout=subprocess.PIPE, stderr=subprocess.PIPE, text=True, timeout=timeout)
+        try:
+            p = subprocess.run([sys.executable, "-P", DRIVER, job], cwd=self.cwd, env=self.env(), stdin=subprocess.DEVNULL,
+                               stdout=subprocess.PIPE, stderr=subprocess.PIPE, text=True, timeout=timeout)
+            rc, err = p.returncode, p.stderr[-1500:]
+        except subprocess.TimeoutExpired:
+            rc, err = "timeout", "driver exceeded %ss" % timeout
         steps = []
         if os.path.exists(out):
             with open(out) as fh:
                 for line in fh:
                     if line.strip():
                         steps.append(json.loads(line))
-        return steps, p.returncode, p.stderr[-1500:]
+        return steps, rc, err
 
     def play_fresh(self, ops, probe_keys=(), workers=4):
         """Each op in its own fresh process (in parallel); returns one step record per op."""
@@ -82,11 +86,17 @@ class World:
             for f in futs:
                 steps, rc, err = f.result()
                 res.append(steps[0] if steps else
-                           {"i": 0, "res": {"error": "driver-died", "msg": err[-300:], "frame": None}, "changed": []})
+                           {"i": 0, "res": {"error": "TimeoutExpired" if rc == "timeout" else "driver-died", "msg": err[-300:],
+                                            "frame": None}, "changed": []})
         return res
 
     def close(self):
         shutil.rmtree(self.case_dir, ignore_errors=True)
+
+
+def infra(res) -> bool:
+    """A step result that says nothing about sqlfluff: the machine was too busy (timeout) or the driver was killed."""
+    return isinstance(res, dict) and res.get("error") in ("TimeoutExpired", "driver-died")
 
 
 def op_key(op) -> str:
